@@ -252,3 +252,41 @@ pub async fn verif_commit(sessions: &[(bool, u64)], before: &[u64], announcing: 
     stopped.sort();
     (auth, stopped)
 }
+
+/// `NodeServerState::check_candidate(asking)` on a state whose sessions (ids 1..n) are given as (is_server, nonce; 0 = none, peer name); `auth` are the ids
+/// recorded as authenticated; `this` is the local node name. Returns the reply's variant name.
+pub async fn verif_check_candidate(sessions: &[(bool, u64, String)], auth: &[u64], asking: u64, this: &str) -> String {
+    let (listener, _lh) = Actor::spawn(None, VerifListener, ()).await.unwrap();
+    let mut node_sessions = HashMap::new();
+    let mut connection_ids = HashMap::new();
+    let mut actors = Vec::new();
+    for (i, (srv, nonce, peer)) in sessions.iter().enumerate() {
+        let n = i as u64 + 1;
+        let (s, _sh) = Actor::spawn(None, VerifSess, ()).await.unwrap();
+        let mut info = NodeServerSessionInformation::new(s.clone(), *srv, 100 + n, format!("addr{n}"));
+        info.peer_name = Some(auth_protocol::NameMessage { name: peer.clone(), flags: None, connection_string: "peer:1".to_string(), connection_id: 0 });
+        node_sessions.insert(s.get_id(), info);
+        connection_ids.insert(s.get_id(), NonZeroU64::new(*nonce));
+        actors.push((n, s));
+    }
+    let id_of = |n: u64| actors.iter().find(|(k, _)| *k == n).map(|(_, a)| a.get_id()).unwrap();
+    let state = NodeServerState {
+        listener,
+        node_sessions,
+        node_id_counter: 200,
+        this_node_name: auth_protocol::NameMessage { name: this.to_string(), flags: None, connection_string: "this:1".to_string(), connection_id: 0 },
+        subscriptions: HashMap::new(),
+        connection_ids,
+        authenticated_sessions: auth.iter().map(|n| id_of(*n)).collect(),
+    };
+    let r = match state.check_candidate(id_of(asking)) {
+        SessionCheckReply::NoOtherConnection => "NoOtherConnection",
+        SessionCheckReply::ThisConnectionContinues => "ThisConnectionContinues",
+        SessionCheckReply::OtherConnectionContinues => "OtherConnectionContinues",
+        SessionCheckReply::DuplicateConnection => "DuplicateConnection",
+    };
+    for (_, a) in actors {
+        a.stop(None);
+    }
+    r.to_string()
+}
